@@ -190,8 +190,10 @@ def _ret_loc(p, f):
 
 def _guard_class(p, betas_s, b0):
     """which assumption about betas holds on this path: 'zero', 'const' or 'general'"""
+    from .common import both_polarities
+
     cls_ = "general"
-    for c, v in p.facts:
+    for c, v in both_polarities(p.facts):
         if not v or c.t[0] != "all":
             continue
         inner = c.t[1]
